@@ -7,14 +7,17 @@ WT="$1"; MD="$2"; NAME="$3"
 cd "$WT" || exit 2
 git checkout -q -- . ; 
 PKG=$(python3 -c "import json;print(json.load(open('$MD/meta.json'))['demo_pkg'])")
+FLAGS=$(python3 -c "import json;f=json.load(open('$MD/meta.json')).get('demo_flags','');print(' '.join(f) if isinstance(f,list) else f)")
+RUNONLY=""
+case "$FLAGS" in *-race*) RUNONLY="-run Demo|demo|C[0-9][0-9]" ;; esac   # the repository's own tests are not race-clean
 git apply "$MD/patch.diff" || { echo "FAIL apply"; exit 1; }
 go build ./... || { echo "FAIL build"; git checkout -q -- .; exit 1; }
 SUITE=$(go test -vet=off -count=1 ./... 2>&1 | grep -E "^(FAIL[[:space:]]+[a-z]|--- FAIL|panic:|ok .*\(cached\))" | grep -v "TestEnglish\|TestJapanese\|internal/wordlists" )
 if [ -n "$SUITE" ]; then echo "FAIL suite: $SUITE"; git checkout -q -- .; exit 1; fi
 cp "$MD/demo_test.go" "$PKG/zz_demo_test.go"
-go test -vet=off -count=1 -timeout 300s "./$PKG" > /tmp/confirm_with.log 2>&1; WITH=$?
+go test -vet=off -count=1 -timeout 300s $FLAGS ${RUNONLY:+-run} ${RUNONLY:+"${RUNONLY#-run }"} "./$PKG" > /tmp/confirm_with.log 2>&1; WITH=$?
 git checkout -q -- .
-go test -vet=off -count=1 -timeout 300s "./$PKG" > /tmp/confirm_without.log 2>&1; WITHOUT=$?
+go test -vet=off -count=1 -timeout 300s $FLAGS ${RUNONLY:+-run} ${RUNONLY:+"${RUNONLY#-run }"} "./$PKG" > /tmp/confirm_without.log 2>&1; WITHOUT=$?
 rm -f "$PKG/zz_demo_test.go"
 if [ $WITH -eq 0 ] || [ $WITHOUT -ne 0 ]; then echo "FAIL demo: with=$WITH without=$WITHOUT"; tail -5 /tmp/confirm_without.log; exit 1; fi
 D=/verif/seeded/$NAME; mkdir -p $D
